@@ -111,10 +111,25 @@ func peek(r io.Reader, b []byte) (shouldRewind bool, err error) {
 
 	// A reader may return fewer bytes than asked for: read until the buffer is full. Hitting the end of a short input
 	// is not an error here, the caller examines what is there
-	if _, err = io.ReadFull(r, b); err == io.ErrUnexpectedEOF {
+	var n int
+	if n, err = readFull(r, b); err == io.EOF && n > 0 {
 		err = nil
 	}
 	shouldRewind = true
+	return
+}
+
+// readFull reads until b is full. Unlike io.ReadFull it reports the end of the input as io.EOF whether or not some
+// bytes have been read before, so that an io.ErrUnexpectedEOF is always an error of the reader itself
+func readFull(r io.Reader, b []byte) (n int, err error) {
+	for n < len(b) && err == nil {
+		var nn int
+		nn, err = r.Read(b[n:])
+		n += nn
+	}
+	if n == len(b) {
+		err = nil
+	}
 	return
 }
 
@@ -140,8 +155,8 @@ func (pb *packetBuffer) next() (p *Packet, err error) {
 
 	// Loop to make sure we return a packet even if first packets are skipped
 	for p == nil {
-		if _, err = io.ReadFull(pb.r, pb.packetReadBuffer); err != nil {
-			if err == io.EOF || err == io.ErrUnexpectedEOF {
+		if _, err = readFull(pb.r, pb.packetReadBuffer); err != nil {
+			if err == io.EOF {
 				err = ErrNoMorePackets
 			} else {
 				err = fmt.Errorf("astits: reading %d bytes failed: %w", pb.packetSize, err)
